@@ -34,17 +34,12 @@ Init == /\ r = IF Narrow THEN BInit(R) ELSE EInit
 NewVal(o2, a) == IF VALS = 2 THEN (IF 1 \in BmGet(o2.mem, a) THEN BmInitByte(a) ELSE 1)
                  ELSE (IF 1 \in BmGet(o2.mem, a) THEN 2 ELSE 1)
 Acc(o2, w, a, s, c) == [cyc |-> 1, stb |-> 1, we |-> w, a |-> a, sel |-> s, d |-> IF w = 1 THEN NewVal(o2, a) ELSE 0, cti |-> c]
-NewAccesses(o2) ==
-    IF o2.burst
-    THEN IF o2.acc.a + 1 >= NA THEN {}
-         ELSE {Acc(o2, o2.acc.we, o2.acc.a + 1, s, c) :
-                  s \in (IF o2.acc.we = 1 THEN SELS ELSE {1}), c \in (IF o2.acc.a + 2 < NA THEN {2, 7} ELSE {7})}
-    ELSE UNION {{Acc(o2, w, a, s, c) : s \in (IF w = 1 THEN SELS ELSE {1}), c \in (IF a + 1 < NA THEN {2, 7} ELSE {7})} :
-                w \in {0, 1}, a \in 0..NA - 1}
+NewAccesses(o2) ==      \* CTI is a hint per access: any direction / address / CTI may follow any access, also inside a held cycle
+    UNION {{Acc(o2, w, a, s, c) : s \in (IF w = 1 THEN SELS ELSE {1}), c \in {2, 7}} : w \in {0, 1}, a \in 0..NA - 1}
 NextMaster(o2) ==
     IF o2.pend THEN {m, Idle(0)}
     ELSE {Idle(0)} \cup (IF HOLD THEN {Idle(1)} ELSE {}) \cup NewAccesses(o2)
-    \* (o2.burst with the burst at the top address cannot continue: the master ends it by negating CYC or idling)
+    \* 
 
 \* vacuity guard: with COVER = TRUE the ghost variable seen collects the named situations met so far; the cover
 \* configuration (TLC -simulate) must VIOLATE CoverAll, i.e. exhibit one behaviour of this closed system that meets them all.
@@ -60,9 +55,9 @@ Goals == (IF Narrow THEN
             (IF r.fsm = "WRITE" /\ m.cyc = 0 THEN {"aborted-write"} ELSE {})
             \cup (IF r.fsm = "READ" /\ r.aborted = 1 /\ m.cyc = 1 THEN {"new-access-behind-aborted-read"} ELSE {}))
          \cup (IF \E B \in DOMAIN obs.mem : Cardinality(obs.mem[B]) > 1 THEN {"maybe-written-byte"} ELSE {})
-         \cup (IF obs.burst THEN {"burst"} ELSE {})
-AllGoals == IF Narrow THEN {"cache-hit", "aborted-read", "merge", "flush-other-word", "flush-on-cyc-low", "write-cmd-after-drop", "burst"}
-            ELSE {"aborted-write", "new-access-behind-aborted-read", "maybe-written-byte", "burst"}
+         \cup (IF Narrow /\ r.fsm = "CMD" /\ r.rc_valid = 1 /\ m.cyc = 1 /\ m.stb = 1 /\ m.we = 1 THEN {"write-while-cache-valid"} ELSE {})
+AllGoals == IF Narrow THEN {"cache-hit", "aborted-read", "merge", "flush-other-word", "flush-on-cyc-low", "write-cmd-after-drop", "write-while-cache-valid"}
+            ELSE {"aborted-write", "new-access-behind-aborted-read", "maybe-written-byte"}
 
 \* Dead-field normalisation (state-space reduction only; the lock-step trace spec uses the raw BNext): registers that
 \* are rewritten before they are read again are zeroed, and so is the monitor's memory of a finished access.
@@ -73,7 +68,7 @@ NormR(x) ==
               !.wr_addr = IF x.wr_valid = 1 THEN @ ELSE 0, !.wr_last = IF x.wr_valid = 1 THEN @ ELSE 0,
               !.aborted = IF x.fsm = "READ_DATA" THEN @ ELSE 0]
 NormO(x) == [x EXCEPT !.abw = FALSE, !.mem = [B \in 0..NA - 1 |-> BmGet(x.mem, B)],
-                      !.acc = IF x.pend THEN @ ELSE IF x.burst THEN [WbInit.acc EXCEPT !.a = x.acc.a, !.we = x.acc.we] ELSE WbInit.acc]
+                      !.burst = FALSE, !.acc = IF x.pend THEN @ ELSE WbInit.acc]
 
 Tick ==
   LET i == [cyc |-> m.cyc, stb |-> m.stb, we |-> m.we, a |-> m.a, sel |-> m.sel, d |-> m.d,
@@ -126,6 +121,10 @@ NotGoal_pending_merge_other_word == ~(Narrow /\ r.fsm = "CMD" /\ r.wr_valid = 1 
 NotGoal_cache_hit_last_beat == ~(Narrow /\ r.fsm = "CMD" /\ RdReq /\ r.wr_valid = 0 /\ DwHit(R, r, [a |-> m.a]) /\ m.cti = 7)
 NotGoal_write_cmd_stalled_master_gone == ~(Narrow /\ r.fsm = "WRITE_CMD" /\ r.wr_valid = 1 /\ m.cyc = 0 /\ mo.cmd_ready = 0)
 NotGoal_drop_as_data_returns == ~(Narrow /\ r.fsm = "READ_DATA" /\ mo.rdata_valid = 1 /\ m.cyc = 0 /\ r.aborted = 0)
+NotGoal_parked_write_to_cached_word == ~(Narrow /\ r.fsm = "CMD" /\ r.rc_valid = 1 /\ WrReq /\ m.cti = 2 /\ m.sel = 1 /\ r.rc_addr = m.a \div R
+                                         /\ r.wr_valid = 0 /\ ~DwFlush(R, r, [a |-> m.a, last |-> 0], BUG))
+NotGoal_write_to_occupied_lane == ~(Narrow /\ r.fsm = "CMD" /\ r.wr_valid = 1 /\ WrReq /\ m.sel = 1 /\ r.wr_addr = m.a \div R /\ r.wr_sel[DwMod(m.a, R) + 1] = 1)
+NotGoal_read_behind_parked_write == ~(Narrow /\ r.fsm = "CMD" /\ r.wr_valid = 1 /\ RdReq /\ r.wr_addr = m.a \div R)
 NotGoal_aborted_write_equal == ~(~Narrow /\ r.fsm = "WRITE" /\ m.cyc = 0)
 \* ---------------------------------------------------------------- invariants
 NoClauseBroken == lastbad = {}
